@@ -351,6 +351,11 @@ func (p *pgBoundValue) GetData(setting config.ColumnEncryptionSetting) ([]byte, 
 
 			decoded, err := utils.DecodeEscaped(p.data)
 			if err != nil {
+				if err == utils.ErrDecodeOctalString {
+					// not an escaped bytea value: text with control characters or a lone backslash
+					// is processed as it is, like a literal that cannot be decoded
+					return p.data, nil
+				}
 				return p.data, err
 			}
 			return decoded, nil
